@@ -1110,7 +1110,7 @@ func ruleRepPrint(c *Ctx, r *R) {
 	sps := c.pathsOf("Value.safeStr")
 	okSafe := false
 	for _, p := range sps {
-		if len(p.Ret) == 1 && strings.Contains(p.Ret[0].String(), "safeStr.SafeStr(") {
+		if len(p.Ret) == 1 && strings.Contains(p.Ret[0].String(), ".SafeStr(") {
 			okSafe = true
 		}
 	}
